@@ -330,10 +330,14 @@ def _placeholders(ctx: Ctx) -> dict[str, list[tuple[FuncInfo, ast.AST]]]:
                         out.setdefault(v.id, []).append((fi, n))
     # a helper that builds the name from a constant (LOOP_n)
     for fi in ctx.index.all_functions():
-        rets = [r for r in ast.walk(fi.node) if isinstance(r, ast.Return)
-                and isinstance(r.value, ast.JoinedStr)]
-        for r in rets:
-            for x in ast.walk(r.value):
+        rets = []
+        for r in ast.walk(fi.node):
+            if isinstance(r, ast.Return) and r.value is not None:
+                v = ctx.reach(fi).resolve(r.value, at=r)
+                if isinstance(v, ast.JoinedStr):
+                    rets.append((r, v))
+        for r, v in rets:
+            for x in ast.walk(v):
                 if isinstance(x, ast.Name) and x.id in consts:
                     for q in ctx.cg.callers(fi):
                         caller = ctx.index.functions[q]
